@@ -129,4 +129,49 @@ def streams(tier, rng, P, only=None, cases=None):
         return None
     s2 = Stream("context", cases if (cases and only == "context") else mk_ctx(), lambda c, st, f: [], ctx_judge,
                 lambda c, i, m: (c["name"], c["src"][:12]) if i[0] == "ok" else None, "commands after state-leaving music vs after a silent prefix")
-    return [s for s in (s1, s2) if only in (None, s.name)]
+    # ---- SysEx$ with Roland checksum groups `{…}`: after every group the byte that makes the group's sum 0 modulo 128
+    def mk_sx():
+        out = []
+        for i in range(600 if big else 80):
+            ng = rng.choice([1, 1, 2, 2, 3])
+            groups = [[rng.randrange(0, 128) for _ in range(rng.randrange(1, 6))] for _ in range(ng)]
+            head = [0xF0, 0x41, 0x10, 0x42, 0x12]; between = [[rng.randrange(0, 128) for _ in range(rng.choice([0, 0, 1]))] for _ in range(ng)]
+            text = ",".join("%02x" % b for b in head); exp = list(head)
+            for g, bt in zip(groups, between):
+                text += ",{" + ",".join("%02x" % b for b in g) + "}"; exp += g + [(128 - sum(g) % 128) % 128]
+                if bt: text += "," + ",".join("%02x" % b for b in bt); exp += bt
+            text += ",f7"; exp += [0xF7]
+            src = "SysEx$=" + text + "; c"
+            out.append(dict(req="run " + hx(src), src=src, show=src, exp="".join("%02x" % b for b in exp), ng=ng, key="sx%d" % i))
+        return out
+    def sx_judge(c, impl, m):
+        st, f = impl
+        if st != "ok": return ("violation", "SysEx command did not compile normally: " + st)
+        evs = [e for e in f["tracks"].split(";")[0].split(",") if e.startswith("sysex:")]
+        if len(evs) != 1: return ("violation", "expected one SysEx event, got %d" % len(evs))
+        got = evs[0].split(":")[6]
+        if got != c["exp"]: return ("violation", "SysEx bytes %s, prescribed (every group followed by its own checksum) %s" % (got, c["exp"]))
+        return None
+    s3 = Stream("sysexsum", cases if (cases and only == "sysexsum") else mk_sx(), lambda c, st, f: [], sx_judge,
+                lambda c, i, m: (c["ng"], c["exp"][:40]) if i[0] == "ok" else None, "SysEx$ with one to three checksum groups")
+    # ---- sysexev: Event::sysex on arbitrary value lists with group markers (-1 opens, -2 closes; also unbalanced and nested) against
+    #      the literal model Model.Messages.sysexData (the theorems C15_sysex_group_checksum / sysexGo_group are about it)
+    def mk_se():
+        out = []
+        for i in range(3000 if big else 400):
+            vals = []
+            for _ in range(rng.randrange(0, 14)):
+                r = rng.random()
+                vals.append(-1 if r < 0.15 else -2 if r < 0.3 else rng.choice([rng.randrange(0, 128), rng.randrange(0, 256), 300, -3, 127, 0]))
+            flag = 1 if rng.random() < 0.8 else 0
+            v = ",".join(map(str, vals)) or "~"
+            out.append(dict(req="sysex %d %s" % (flag, v), flag=flag, vals=v, show="Event::sysex(%s, checksum=%d)" % (v, flag), key="se%d" % i))
+        return out
+    def se_judge(c, impl, m):
+        st, f = impl
+        if st != "ok": return ("violation", "Event::sysex did not return normally: " + st)
+        if m[0] != "ok data=" + f["data"]: return ("mismatch", "Model.Messages.sysexData = %s, implementation = %s" % (m[0], f["data"]))
+        return None
+    s4 = Stream("sysexev", cases if (cases and only == "sysexev") else mk_se(), lambda c, st, f: ["sysexdata %d %s" % (c["flag"], c["vals"])], se_judge,
+                lambda c, i, m: i[1].get("data") if i[0] == "ok" else None, "Event::sysex vs the literal model")
+    return [s for s in (s1, s2, s3, s4) if only in (None, s.name)]
